@@ -901,3 +901,28 @@ func verifRoundTripNextHop(a *PathAttributeNextHop) bool {
 	}
 	return b.Type == a.Type && b.Flags == a.Flags && b.Length == a.Length && a.Len() == len(buf) && b.Len() == len(buf)
 }
+
+// ---------------------------------------------------------------------------------------------
+// from C05: "Any value that is returned - including a message handed back together with a non-fatal
+// (attribute-discard or treat-as-withdraw class) error, which the daemon goes on to use - can be rendered ... and
+// re-serialised without panicking". BGPUpdate.DecodeFromBytes keeps an attribute whose own decoding failed unless
+// the error class is attribute-discard, so the state a decoder leaves its attribute in on EVERY exit must be one
+// its renderers accept. For the PMSI tunnel attribute (the one attribute whose renderers dereference an interface
+// field) that state is "TunnelID is set".
+//@ props C05
+//@ func (*PathAttributePmsiTunnel).DecodeFromBytes
+//@   requires p != nil
+//@   claims post bounds
+//@   modifies p.*
+//@   ensures p.TunnelID != nil
+//@ func labelSerialize
+//@   modifies nothing
+//@ func labelDecode
+//@   modifies nothing
+//@   ensures result1 != nil ==> freshMsgErr(result1)
+//@ func (*PathAttributePmsiTunnel).Serialize
+//@   requires p != nil && p.TunnelID != nil
+//@   claims nil
+//@ func (*PathAttributePmsiTunnel).MarshalJSON
+//@   requires p != nil && p.TunnelID != nil
+//@   claims nil
